@@ -8,6 +8,26 @@ NOTE = ("Trusted: Lean 4.33 kernel + axioms {propext, Classical.choice, Quot.sou
         "vs compiled model driver on generated inputs), tables by tools/gen_tables.py; Spec predicates are additionally run "
         "on the implementation's own output. A theorem speaks about the model; the implementation is covered where the campaign compared them.")
 CLAIMS = {
+    'C02': ("Theorems for every builder (TCP flow ops, UDP flow/unicast/broadcast/DNS/VXLAN, ICMP, ipv4::datagram, fragments, GRE/ERSPAN) and "
+            "all payloads/options with total length <= 65535: Spec.ipv4Ok (version/IHL, total length, checksum) and every requested field reads "
+            "back; nesting by induction over tunnel layers. Correspondence + Spec oracle on real records at every depth.", "7 C02",
+            "Lean proof (checksum arithmetic by omega, builder invariants, induction over layers) + correspondence"),
+    'C03': ("Theorems: TCP checksum verifies for every flow op and payload parity; UDP checksum non-zero and verifying (0 -> 0xffff), UDP "
+            "length exact for all UDP builders; ICMP echo checksum/type/code/id and the k-th echo carries seq k mod 2^16 over every history. "
+            "Correspondence + Spec oracle incl. crafted sums that fold to zero.", "7 C03",
+            "Lean proof (one's-complement arithmetic, history induction) + correspondence"),
+    'C18': ("Theorems (no hypotheses): for every builder, framed = Spec.ethFrame(raw) with MACs 00:02+address octets from the packet's own "
+            "IP header, broadcast destination all-ones; ipv4::datagram always framed. One clause fails by design (broadcast srcip:) and is a "
+            "known finding with a proved counter-witness. Correspondence: every scenario compiled framed and raw by the real binary.", "7 C18",
+            "Lean proof (builder equations) + framed/raw differential runs"),
+    'C06': ("Theorems: one outer per inner in order, byte-identical payload, header fields per kind, ERSPAN II/GRE sequence counts packets "
+            "from zero across calls, unwrap (wrap layers inner) = inner for every nesting list. Correspondence: all nestings to depth 2/3 "
+            "+ random to depth 5; real pcap peeled by the Spec decoders and compared with the un-encapsulated run.", "7 C06",
+            "Lean proof (decoder round trips, history invariant, induction over layers) + correspondence"),
+    'C07': ("Theorems: every fragment decodes to the requested slice/fields, MF iff bytes remain, tail/datagram, RFC 791 reassembly of any "
+            "covering set in any permutation returns the payload. Correspondence: exhaustive (n,off,len) grid + random covering sets; "
+            "Spec.decodeFrag/reassemble on the real fragments.", "7 C07",
+            "Lean proof (slice algebra, permutation-invariant reassembly) + correspondence"),
     'C04': ("Theorems (induction over arbitrary op histories, all ISNs, wrap-around): counters track consumed sequence space, every "
             "emitted segment has the expected seq/ack/flags, reassembly of any permutation of the segments recovers the scripted "
             "streams, overrides are local. Correspondence: exhaustive short histories + random histories through the real binary; "
